@@ -15,16 +15,20 @@ from interstitial_common import fr
 
 META = dict(
     id='C06',
-    lean_modules=['OnsagerModel.C06', 'OnsagerProofs.C06', 'OnsagerModel.Chain', 'OnsagerProofs.Chain'],
+    lean_modules=['OnsagerModel.C06', 'OnsagerProofs.C06', 'OnsagerModel.Chain', 'OnsagerProofs.Chain', 'OnsagerProofs.Lemmas.Cover',
+                  'OnsagerProofs.Lemmas.Tracer', 'OnsagerModel.ChainTracer', 'OnsagerProofs.ChainTracer'],
     theorems=['Onsager.C06.tracer_data_is_host', 'Onsager.Chain.coeff_diag_nonneg', 'Onsager.Chain.formOf_symm',
-              'Onsager.Chain.coeff_diag_eq_Qmin'],
+              'Onsager.Chain.coeff_diag_eq_Qmin', 'Onsager.Var.mixed_cover', 'Onsager.Var.tracer_cross',
+              'Onsager.Chain.tracer_vv', 'Onsager.Chain.tracer_sv'],
     tie_theorems=[],
     level_text='Partial. Kernel-checked: the tracer data generator copies the host jump data class by class (model tied to '
-               'maketracerpreene by correspondence); for every finite chain Lss >= 0 and reciprocity holds. The identities '
-               'Lsv = -L0vv, L1vv = 0 and Lss <= L0vv are not proved for all chains: they are verified exactly in rational arithmetic on '
-               'finite periodic chains (certified by the exact chain model) and at Green-function accuracy on the implementation.',
+               'maketracerpreene by correspondence); for every finite chain Lss >= 0 and reciprocity holds; for EVERY finite tagged-atom '
+               'chain that covers the lone-vacancy chain (decidable hypotheses checkVV/checkSV, decided by the driver on the chains built '
+               'from the implementation tables) Lsv = -L0vv and L1vv = 0 hold exactly in every tensor component (tracer_sv, tracer_vv). '
+               'Lss <= L0vv is not proved for all chains: verified exactly in rational arithmetic on the finite chains. All three '
+               'identities are checked at Green-function accuracy on the implementation (thermodynamic limit not in the model).',
     level_note='Trusted: Lean kernel + standard axioms; harness/oracle_chain.py chain construction; Green-function numerics outside the model.',
-    technique='Lean 4 model of the tracer generator + exact rational verification of the identities on finite chains + oracle on Lij',
+    technique='Lean 4 covering/class-sum theorems for tagged-atom chains + model of the tracer generator + oracle on Lij',
     rule='vacancy calculators (single and two Wyckoff sets, 2-D/3-D, origin states) x Nthermo 1 (2 thorough) x random vacancy '
          'prefactors/energies per Wyckoff set and per omega0 class; non-trivial = non-uniform vacancy data; distinct by (calculator, data)',
     trusted=[], assumptions=[],
@@ -71,7 +75,7 @@ def _rat_tensor(part, dim):
 def exact_identities(ctx):
     cases = [('sq2d', 5), ('honey2d', 5), ('rect2d-2site', 5)] if ctx.quick else \
             [('sq2d', 5), ('tri2d', 5), ('honey2d', 5), ('rect2d-2site', 5), ('oblique2d', 5), ('fcc', 5), ('bcc', 5), ('twoW', 3)]
-    lines, meta = [], []
+    lines, meta, tlines = [], [], []
     for name, n in cases:
         calc = vc.calculator(name, 1)
         q, d = _exact_tracer(ctx.rng, calc)
@@ -81,7 +85,12 @@ def exact_identities(ctx):
             ctx.note('chain %s n=%d skipped: %s' % (name, n, e)); continue
         lines.append(oc.lean_request(ch, calc.crys)); lines.append(oc.lean_lone_request(ch, calc.crys))
         meta.append((name, n, calc, d, ch))
+        # hypotheses of tracer_vv / tracer_sv: forget the tagged atom (state -> vacancy site), fibres of size M - 1
+        alive = np.where(ch['alive'])[0]
+        proj = [int((x // ch['ncell']) % ch['N']) for x in alive]
+        tlines.append('%s ; %d # %s # %s' % (','.join(map(str, proj)), ch['ncell'] * ch['N'] - 1, oc.lean_request(ch, calc.crys, with_cert=False), lines[-1]))
     answers = ctx.lean('Drive/Chain.lean', lines, timeout=3000)
+    tanswers = ctx.lean('Drive/ChainTracer.lean', tlines, timeout=3000)
     for k, (name, n, calc, d, ch) in enumerate(meta):
         dim, N = calc.crys.dim, calc.N
         a, b = answers[2 * k], answers[2 * k + 1]
@@ -100,6 +109,12 @@ def exact_identities(ctx):
         l0 = L @ np.array([[float(x) for x in r] for r in lvv]) @ L.T
         sc = np.abs(l0).max()
         ok_b = np.linalg.eigvalsh(ss).min() >= -1e-12 * sc and np.linalg.eigvalsh(l0 - ss).min() >= -1e-12 * sc
+        ctx.count('tracercheck:' + tanswers[k])
+        if tanswers[k] != 'vv=1 sv=1':
+            ctx.disagree('the tagged-atom chain built from the implementation tables does not satisfy the hypotheses of tracer_vv / tracer_sv '
+                         '(covering of the lone-vacancy chain, class sums): %s' % tanswers[k], rep)
+        elif not (ok_sv and ok_vv):
+            ctx.disagree('exact model contradicts tracer_vv / tracer_sv although their hypotheses were accepted', rep)
         if not (ok_sv and ok_vv and ok_b):
             ctx.disagree('exact finite chain with tracer data violates a tracer identity (Lsv=-L0vv: %s, L1vv=0: %s, 0<=Lss<=L0vv: %s): '
                          'chain construction or property suspect' % (ok_sv, ok_vv, ok_b), rep)
